@@ -1,29 +1,33 @@
 import LibInj.Proofs.TokenizeOK
-import LibInj.Proofs.FingerprintOK
+import LibInj.Proofs.WhitelistOK
 import LibInj.Properties.C12
 /-! # C01 — IsSQLi is total: it returns for every byte string, never panics
 
 The model panics where the Go code can: every index, slice and token-vector access is a checked
-operation, loops carry explicit fuel. Proved for every input and every mode:
+operation, loops carry explicit fuel. **Proved for every input (`isSQLi_total`, the full statement
+`C01_statement`)**: `isSQLi s` returns a verdict — no out-of-range index, slice bound or token-vector
+access is reachable and no loop runs out of fuel. The proof goes through every stage:
 
 * `tokenizer_total` — the scanner (all 22 lexers, the dispatch, the virtual opening quote) never errs,
-  consumes at least one byte per step and stops at end of input (fuel `|s|+1` per scan loop is never
-  exhausted);
-* `raw_stream_total` — the whole raw token stream exists;
-* `isSQLi_total_of_passes` — if the five per-context passes return, `isSQLi` returns (the cascade
-  itself adds no failure), and `isSQLi_nil`.
+  consumes at least one byte per step and stops at end of input;
+* `fold_total` — the folding stage: the 5-token special cases, the token-fetching loops, all two- and
+  three-token rewrite rules with their `val[0]`, `val[1]`, `val[:3]` reads, `merge`, the epilogue.
+  **Termination of the main loop** is by the measure `bigM` (`Proofs/FoldRel`): unread input, then
+  window size, then a weight of the token classes that every in-place re-categorisation lowers, then
+  the distance `pos - left`; each iteration that asks for another one lowers it or ends the input
+  (`foldBody_ok`), so the fuel `1015·|s| + 1015` is never exhausted;
+* `fingerprint_total` — `sqliFingerprint`;
+* `every_pass_total` — blacklist and whitelist: `notWhitelist`'s raw reads `tv[1].val[0]`,
+  `input[tv[0].len]`, `input[tv[0].len+1]` are in range. This needs (i) the table fact that a
+  blacklisted two-class fingerprint ends in `c` or `U` (so `tv[1]` is a non-empty comment), and (ii) an
+  invariant of the whole run that holds while at most two tokens have been emitted (`XInv`): a
+  number token ends before the offset at which a later comment was dispatched, and a comment
+  dispatched on `/` or `-` has two bytes (`/*`, `--`);
+* the cascade adds no failure of its own (`isSQLi_total_of_passes`).
 
-* `fold_safe`, `fingerprint_safe` — **no panic in `fold` / `sqliFingerprint`**: for every input and
-  every mode the folding stage (the 5-token special cases, the token-fetching loops, all two- and
-  three-token rewrite rules with their `val[0]`, `val[1]`, `val[:3]` reads, `merge`, the epilogue, the
-  fingerprint construction) performs no out-of-range index, slice or token-vector access; the only
-  failure the model can still report there is exhaustion of the main loop's fuel, i.e. non-termination.
-
-What is **not yet a theorem**: termination of `fold`'s main loop (lexicographic measure of DESIGN §6)
-and the raw indexings in `notWhitelist` (`input[tv[0].len]`, `input[tv[0].len+1]`, `tv[1].val[0]`); the
-full statement is `C01_statement`. That part rests on the correspondence (model and code agree on
-error status on every generated input, the model erring on none) and on the panic/timeout oracle on
-the real package. -/
+Table facts used (re-checked by the kernel against the regenerated tables on every build):
+`keywords_valOK`, `keywords_phraseOK` (a phrase is never a number, a backslash or a comment),
+`keywords_twoFpOK`, `dispatch_facts_table`. -/
 namespace LibInj.Properties.C01
 open LibInj LibInj.Sqli
 
@@ -42,16 +46,23 @@ theorem every_lexer_total (flags : Nat) (rest : Bytes) (c : UInt8) (h0 : rest[0]
   obtain ⟨r, h1, a1, a2, _⟩ := runP_ok flags rest c h0
   exact ⟨r, h1, a1, a2⟩
 
-/-- **no panic in `fold`**, from any state satisfying the scanner invariant (in particular the
-initial one): the result is a token count `≤ 7` or fuel exhaustion -/
-theorem fold_safe (s : State) (hs : SInv s) :
-    (∃ n s', fold s = .ok (n, s') ∧ SInv s' ∧ s'.input = s.input ∧ n ≤ 7) ∨ fold s = .error .fuel :=
-  fold_ok s hs
+/-- **`fold` is total**, from any state satisfying the scanner invariant with an empty window beyond
+slot 0 (in particular the initial one): it returns a token count `≤ 7` -/
+theorem fold_total (s : State) (hs : SInv s) (hz : ∀ j t, j ≠ 0 → s.tv[j]? = some t → t.cat = 0) :
+    ∃ n s', fold s = .ok (n, s') ∧ SInv s' ∧ s'.input = s.input ∧ n ≤ 7 := by
+  obtain ⟨n, s', h1, h2, h3, h4, _⟩ := fold_ok s hs hz
+  exact ⟨n, s', h1, h2, h3, h4⟩
 
-/-- **no panic in `sqliFingerprint`**, for every input and flag word -/
-theorem fingerprint_safe (input : Bytes) (flags : Nat) :
-    (∃ st, fingerprint input flags = .ok st ∧ FpInv input st) ∨ fingerprint input flags = .error .fuel :=
-  fingerprint_ok input flags
+/-- one iteration of `fold`'s main loop: never errs; when it asks for another iteration, the input
+has ended or the measure has strictly decreased -/
+theorem fold_iteration (f : FS) (hf : FInv f) : ∃ st, foldBody f = .ok st ∧ BodyOK f st := foldBody_ok f hf
+
+/-- **`sqliFingerprint` is total**, for every input and flag word -/
+theorem fingerprint_total (input : Bytes) (flags : Nat) :
+    ∃ st, fingerprint input flags = .ok st ∧ FpInv input st := fingerprint_ok input flags
+
+/-- **every parsing context is total** (fingerprint, blacklist, whitelist) -/
+theorem every_pass_total (input : Bytes) (flags : Nat) : ∃ r, pass input flags = .ok r := pass_ok input flags
 
 /-- non-vacuity: the initial state satisfies the invariant the safety theorems start from -/
 example (input : Bytes) (flags : Nat) : SInv (sqliInit input flags) := sinv_init input flags
@@ -68,6 +79,15 @@ theorem isSQLi_total_of_passes (s : Bytes) (hp : ∀ F, ∃ r, pass s F = .ok r)
     obtain ⟨d, hd⟩ := hp C12.singleMysql
     obtain ⟨e, he⟩ := hp C12.doubleMysql
     exact ⟨_, C12.isSQLi_cascade s hs a b c d e ha hb hc hd he⟩
+
+/-- **C01, full statement: `IsSQLi` returns for every byte string.** -/
+theorem isSQLi_total : C01_statement :=
+  fun s => isSQLi_total_of_passes s (fun F => pass_ok s F)
+
+/-- non-vacuity of the whitelist branch that reads the input next to a leading number: `1--` and
+`1/*` reach it and return (kernel-evaluated) -/
+example : (match isSQLi [49, 45, 45] with | .ok (true, _) => true | _ => false) = true := by decide +kernel
+example : (match isSQLi [49, 47, 42] with | .ok (true, _) => true | _ => false) = true := by decide +kernel
 
 /-- non-vacuity: a truncated construct at end of input goes through every stage (kernel-evaluated) -/
 example : (match isSQLi [49, 32, 111, 114, 32, 113, 39, 40] with | .ok _ => true | _ => false) = true := by
